@@ -311,6 +311,8 @@ def scenario(inst, V):
         checked = []
         got = op[2]
         for p in sig:
+            if ck == "lambda":
+                break  # a lambda carries no annotations: nothing is checked
             if p[3] == "arr" and p[0] in got:
                 v = got[p[0]]
                 if p[2] and v is g.get(f"D_{p[0]}"):
@@ -319,7 +321,7 @@ def scenario(inst, V):
                     checked += list(v)
                 elif p[1] != "VK":
                     checked.append(v)
-        if inst["ret"] or ck == "property":
+        if (inst["ret"] and ck != "lambda") or ck == "property":
             checked.append(REC["ret"])
         szs = []
         bad_type = False
@@ -345,7 +347,7 @@ def scenario(inst, V):
             V.check("illtyped-rejected", od[0] == "TCE", form=label, decorated=od[0])
             # body not run at all when the *parameters* already violate; if only the result
             # violates, it has run exactly once
-            pszs = szs[:-1] if (inst["ret"] or ck == "property") else szs
+            pszs = szs[:-1] if ((inst["ret"] and ck != "lambda") or ck == "property") else szs
             pcons = z3.BoolVal(True) if len(pszs) <= 1 else z3.And(*[core.lift(pszs[0]) == core.lift(x) for x in pszs[1:]])
             if not bad_type and V.decide(pcons):
                 V.check("body-count", od[3] == 1, form=label, calls=od[3], stage="return")
